@@ -525,6 +525,7 @@ package rib
 //@ requires nolocks(RIBHolder.mu)
 //@ ensures[one-of] (result0 == nil) != (result1 == nil)
 //@ ensures[unknown-kind-fails] (exists i in 0..len(responses) :: exists j in 0..len(responses[i].Entry) :: !entryKindKnown(responses[i].Entry[j])) ==> result1 != nil
+//@ ensures[succeeds-when-convertible] (forall i in 0..len(responses) :: forall j in 0..len(responses[i].Entry) :: entryKindKnown(responses[i].Entry[j])) && !candEverFailed ==> result1 == nil
 //@ ensures[wf] result1 == nil ==> fresh(result0) && holdersWF(result0) && rebuiltWF(result0) && nolocks(RIBHolder.mu) && held(result0.nrMu) == 0
 //@ ensures[default-instance] result1 == nil ==> result0.defaultName == defaultName && defaultName in dom(result0.niRIB)
 //@ ensures[instances-of-entries] result1 == nil ==> forall i in 0..len(responses) :: forall j in 0..len(responses[i].Entry) :: entryNI(responses, i, j) in dom(result0.niRIB)
@@ -549,7 +550,7 @@ package rib
 //@ loop 1 invariant[only-own-objects] onlyfresh()
 //@ loop 2 invariant[only-own-objects] onlyfresh()
 //@ assert at "ygot.MergeStructInto(r.niRIB[ni].r, cr)" [merged-into-own-instance] ni in dom(r.niRIB) && r.niRIB[ni].name == ni && emptied(r.niRIB[ni].r.Afts)
-//@ assigns fgrI, fgrJ, candFailed
+//@ assigns fgrI, fgrJ, candFailed, candEverFailed
 //@ props C07 C12:safety
 
 // ---- generated by /verif/tools/gen_rib_contracts.py (five AFT tables, one shape) ----
@@ -686,6 +687,8 @@ package rib
 
 // candFailed: whether the latest candidate construction (proto -> ygot struct, with validation) reported an error
 //@ ghostvar candFailed Bool
+// candEverFailed: sticky - some candidate construction has failed so far (used by callers that build several candidates)
+//@ ghostvar candEverFailed Bool
 //@ unit candidateRIB
 //@ trusted the proto -> gNMI paths -> ygot struct pipeline (protomap.PathsFromProto, ytypes.SetNode, Validate) is reflection over generated schemas and outside the verifier's reach; its key and reference fields are assumed to equal the proto's
 //@ recovers protomap/ytypes panic on some malformed messages (e.g. an enum field holding an undefined number, protomap.parseField); the deferred recover turns that into the error result, so malformed content is answered FAILED instead of taking the server down (C12)
@@ -709,7 +712,8 @@ package rib
 //@ ensures[cand-wf] result1 == nil && len(a.MacEntry) == 0 && len(a.PolicyForwardingEntry) == 0 ==> candWF(result0.Afts)
 //@ ensures[cand-keyed] result1 == nil ==> keysOK(result0.Afts) && tablesNonNil(result0.Afts)
 //@ ensures[verdict-recorded] candFailed <==> result1 != nil
-//@ assigns candFailed
+//@ ensures[failure-remembered] candEverFailed <==> (old(candEverFailed) || result1 != nil)
+//@ assigns candFailed, candEverFailed
 //@ props C01 C02 C07
 
 //@ unit RIBHolder.AddIPv4
@@ -734,7 +738,7 @@ package rib
 //@ loop 1 invariant (forall j in visited :: j == e.GetPrefix()) && hookCount == old(hookCount) + ite(e.GetPrefix() in visited, 1, 0)
 //@ loop 1 invariant e != nil && holderWF(r) && e.GetPrefix() in dom(r.r.Afts.Ipv4Entry) && r.r.Afts.Ipv4Entry[e.GetPrefix()] != nil && fresh(r.r.Afts.Ipv4Entry[e.GetPrefix()]) && othersKept_v4(r.r.Afts, e.GetPrefix())
 //@ loop 1 invariant fromProto_v4(r.r.Afts.Ipv4Entry[e.GetPrefix()], e) && candOnly_v4(nr.Afts, e.GetPrefix()) && nr != nil && nr.Afts != nil && r.postChangeHook != nil
-//@ assigns r.r.Afts.Ipv4Entry, contents(r.r.Afts.Ipv4Entry), hookCount, candFailed, gateCalls, gateOp, gateCand, gateOK, gateFatal
+//@ assigns r.r.Afts.Ipv4Entry, contents(r.r.Afts.Ipv4Entry), hookCount, candFailed, candEverFailed, gateCalls, gateOp, gateCand, gateOK, gateFatal
 //@ props C01 C02 C16 C12:safety C12:ensures#nil C12:ensures#err-not-installed C12:ensures#no-trace
 
 //@ unit RIBHolder.AddIPv6
@@ -759,7 +763,7 @@ package rib
 //@ loop 1 invariant (forall j in visited :: j == e.GetPrefix()) && hookCount == old(hookCount) + ite(e.GetPrefix() in visited, 1, 0)
 //@ loop 1 invariant e != nil && holderWF(r) && e.GetPrefix() in dom(r.r.Afts.Ipv6Entry) && r.r.Afts.Ipv6Entry[e.GetPrefix()] != nil && fresh(r.r.Afts.Ipv6Entry[e.GetPrefix()]) && othersKept_v6(r.r.Afts, e.GetPrefix())
 //@ loop 1 invariant fromProto_v6(r.r.Afts.Ipv6Entry[e.GetPrefix()], e) && candOnly_v6(nr.Afts, e.GetPrefix()) && nr != nil && nr.Afts != nil && r.postChangeHook != nil
-//@ assigns r.r.Afts.Ipv6Entry, contents(r.r.Afts.Ipv6Entry), hookCount, candFailed, gateCalls, gateOp, gateCand, gateOK, gateFatal
+//@ assigns r.r.Afts.Ipv6Entry, contents(r.r.Afts.Ipv6Entry), hookCount, candFailed, candEverFailed, gateCalls, gateOp, gateCand, gateOK, gateFatal
 //@ props C01 C02 C16 C12:safety C12:ensures#nil C12:ensures#err-not-installed C12:ensures#no-trace
 
 //@ unit RIBHolder.AddMPLS
@@ -785,7 +789,7 @@ package rib
 //@ loop 1 invariant (forall j in visited :: j == boxed(aft.UnionUint32, e.GetLabelUint64())) && hookCount == old(hookCount) + ite(boxed(aft.UnionUint32, e.GetLabelUint64()) in visited, 1, 0)
 //@ loop 1 invariant e != nil && holderWF(r) && boxed(aft.UnionUint32, e.GetLabelUint64()) in dom(r.r.Afts.LabelEntry) && r.r.Afts.LabelEntry[boxed(aft.UnionUint32, e.GetLabelUint64())] != nil && fresh(r.r.Afts.LabelEntry[boxed(aft.UnionUint32, e.GetLabelUint64())]) && othersKept_mpls(r.r.Afts, boxed(aft.UnionUint32, e.GetLabelUint64()))
 //@ loop 1 invariant fromProto_mpls(r.r.Afts.LabelEntry[boxed(aft.UnionUint32, e.GetLabelUint64())], e) && candOnly_mpls(nr.Afts, boxed(aft.UnionUint32, e.GetLabelUint64())) && nr != nil && nr.Afts != nil && r.postChangeHook != nil
-//@ assigns r.r.Afts.LabelEntry, contents(r.r.Afts.LabelEntry), hookCount, candFailed, gateCalls, gateOp, gateCand, gateOK, gateFatal
+//@ assigns r.r.Afts.LabelEntry, contents(r.r.Afts.LabelEntry), hookCount, candFailed, candEverFailed, gateCalls, gateOp, gateCand, gateOK, gateFatal
 //@ props C01 C02 C16 C12:safety C12:ensures#nil C12:ensures#err-not-installed C12:ensures#no-trace
 
 //@ unit RIBHolder.AddNextHopGroup
@@ -813,7 +817,7 @@ package rib
 //@ loop 1 invariant groupWF(nr.Afts.NextHopGroup[e.GetId()])
 //@ loop 1 invariant r.checkFn != nil && r.name != "" ==> groupResolvable(r, r.r.Afts.NextHopGroup[e.GetId()])
 //@ assert at "r.doAddNHG(" [lemma-candidate-resolvable] r.checkFn != nil && r.name != "" ==> groupResolvable(r, nr.Afts.NextHopGroup[e.GetId()])
-//@ assigns r.r.Afts.NextHopGroup, contents(r.r.Afts.NextHopGroup), hookCount, candFailed, gateCalls, gateOp, gateCand, gateOK, gateFatal
+//@ assigns r.r.Afts.NextHopGroup, contents(r.r.Afts.NextHopGroup), hookCount, candFailed, candEverFailed, gateCalls, gateOp, gateCand, gateOK, gateFatal
 //@ props C01 C02 C16 C12:safety C12:ensures#nil C12:ensures#err-not-installed C12:ensures#no-trace
 
 //@ unit RIBHolder.AddNextHop
@@ -837,7 +841,7 @@ package rib
 //@ loop 1 invariant (forall j in visited :: j == e.GetIndex()) && hookCount == old(hookCount) + ite(e.GetIndex() in visited, 1, 0)
 //@ loop 1 invariant e != nil && holderWF(r) && e.GetIndex() in dom(r.r.Afts.NextHop) && r.r.Afts.NextHop[e.GetIndex()] != nil && fresh(r.r.Afts.NextHop[e.GetIndex()]) && othersKept_nh(r.r.Afts, e.GetIndex())
 //@ loop 1 invariant fromProto_nh(r.r.Afts.NextHop[e.GetIndex()], e) && candOnly_nh(nr.Afts, e.GetIndex()) && nr != nil && nr.Afts != nil && r.postChangeHook != nil
-//@ assigns r.r.Afts.NextHop, contents(r.r.Afts.NextHop), hookCount, candFailed, gateCalls, gateOp, gateCand, gateOK, gateFatal
+//@ assigns r.r.Afts.NextHop, contents(r.r.Afts.NextHop), hookCount, candFailed, candEverFailed, gateCalls, gateOp, gateCand, gateOK, gateFatal
 //@ props C01 C02 C16 C12:safety C12:ensures#nil C12:ensures#err-not-installed C12:ensures#no-trace
 
 //@ unit RIBHolder.DeleteIPv4
